@@ -95,9 +95,9 @@ class RecWaiter(BasePW):
 # op = {'mode': 'a'|'s', 'k': 'x'|'r', 'pats': [...], 'T': float|None, 'gap': float}   gap = idle time before the call
 
 
-def make_peer(kind, clk):
+def make_peer(kind, clk, encoding=None):
     if kind == 'pty':
-        ctl = T.PtyCtl([])
+        ctl = T.PtyCtl([], encoding=encoding) if encoding else T.PtyCtl([])
         p = ctl.p
         p.timeout = 30
 
@@ -108,7 +108,7 @@ def make_peer(kind, clk):
             ctl.script = [('E',)]; ctl.act1()
         return p, write, finish, ctl, [ctl.close]
     peer = T.FdPeer([], 'fd')
-    p = fdpexpect.fdspawn(peer.rfd, timeout=30)
+    p = fdpexpect.fdspawn(peer.rfd, timeout=30, encoding=encoding)
 
     def write(b):
         peer.script = [('W', b)]; peer.act1()
@@ -125,7 +125,7 @@ def make_peer(kind, clk):
     return p, write, finish, None, [cleanup]
 
 
-def pats_real(op):
+def pats_real(op, encoding=None):
     out = []
     for q in op['pats']:
         if q[0] == 'E':
@@ -133,26 +133,30 @@ def pats_real(op):
         elif q[0] == 'T':
             out.append(TIMEOUT)
         elif op['k'] == 'x':
-            out.append(q[1].encode('latin-1'))
+            out.append(q[1] if encoding else q[1].encode('latin-1'))
         else:
-            out.append(re.compile(X.render(q[2], 'b').encode('ascii'), X.flag_bits(q[1])))
+            out.append(re.compile(X.render(q[2], 'u') if encoding else X.render(q[2], 'b').encode('ascii'), X.flag_bits(q[1])))
     return out
+
+
+def _t(v):
+    return v.decode('latin-1') if isinstance(v, bytes) else v
 
 
 def observe(p, kind_ret):
     b = p.before
-    rec = dict(before=None if isinstance(b, type) or b is None else b.decode('latin-1'))
+    rec = dict(before=None if isinstance(b, type) or b is None else _t(b))
     a = p.after
-    rec['after'] = 'EOF' if a is EOF else 'TIMEOUT' if a is TIMEOUT else (a.decode('latin-1') if isinstance(a, bytes) else repr(a))
+    rec['after'] = 'EOF' if a is EOF else 'TIMEOUT' if a is TIMEOUT else (_t(a) if isinstance(a, (bytes, str)) else repr(a))
     m = p.match
     if m is EOF or m is TIMEOUT or m is None:
         rec['match'] = 'EOF' if m is EOF else 'TIMEOUT' if m is TIMEOUT else None
-    elif isinstance(m, bytes):
-        rec['match'] = m.decode('latin-1')
+    elif isinstance(m, (bytes, str)):
+        rec['match'] = _t(m)
     else:
-        rec['match'] = m.group(0).decode('latin-1')
+        rec['match'] = _t(m.group(0))
     try:
-        rec['buffer'] = p.buffer.decode('latin-1')
+        rec['buffer'] = _t(p.buffer)
     except Exception:
         rec['buffer'] = None
     rec['match_index'] = p.match_index
@@ -162,12 +166,13 @@ def observe(p, kind_ret):
 def run_object(case, all_sync):
     """run the history on a fresh object; returns per-op records + the event log"""
     clk = V.VClock()
-    p, write, finish, ctl, cleanup = make_peer(case['kind'], clk)
+    encoding = case.get('encoding')
+    p, write, finish, ctl, cleanup = make_peer(case['kind'], clk, encoding)
     t = 0.0
     sched = []
     for a in case['arrivals']:
         if a[1] == 'w':
-            sched.append((a[0], (lambda b=a[2].encode('latin-1'): write(b))))
+            sched.append((a[0], (lambda b=(bytes.fromhex(a[2][4:]) if a[2].startswith('hex:') else a[2].encode('latin-1')): write(b))))
         else:
             sched.append((a[0], finish))
     clk.schedule(sched)
@@ -185,7 +190,7 @@ def run_object(case, all_sync):
             log.append(['E', None, False]); raise
         except TIMEOUT:
             raise
-        log.append(['d', d.decode('latin-1'), False])
+        log.append(['d', _t(d), False])
         return d
     p.read_nonblocking = rn
     loop = VLoop(clk)
@@ -201,7 +206,7 @@ def run_object(case, all_sync):
                     await asyncio.sleep(g)
             n0 = len(log)
             rec = dict(t0=clk.now)
-            pats = pats_real(op)
+            pats = pats_real(op, encoding)
             try:
                 if op['mode'] == 'a' and not all_sync:
                     if op['k'] == 'x':
@@ -386,6 +391,21 @@ def rand_case(rng, allow_t0=False):
     return dict(kind=kind, arrivals=arrivals, ops=ops)
 
 
+def unicode_case(rng):
+    """utf-8 mode: a text with multi-byte characters written in pieces cut at arbitrary byte offsets (also inside a character)"""
+    text = ''.join(rng.choice(['caf\u00e9', ' x ', '\u20ac5', 'na\u00efve', '!', '\u65e5\u672c', ' y']) for _ in range(rng.randrange(2, 6))) + '!'
+    raw = text.encode('utf-8')
+    cuts = sorted(set(rng.randrange(1, len(raw)) for _ in range(rng.randrange(1, 5))))
+    arrivals, prev = [], 0
+    for c in cuts + [len(raw)]:
+        arrivals.append([rng.choice([0.1, 0.1, 0.2]), 'w', 'hex:' + raw[prev:c].hex()]); prev = c
+    if rng.random() < 0.5:
+        arrivals.append([0.1, 'c'])
+    ops = [dict(mode=rng.choice('aas'), k='x', pats=[['s', rng.choice(['\u00e9', '!', '\u20ac', 'x', '\u672c'])]] + ([['E']] if rng.random() < 0.4 else []),
+                T=rng.choice([0.55, 1.05]), gap=rng.choice([0, 0.2])) for _ in range(rng.randrange(1, 4))]
+    return dict(kind=rng.choice(['fd', 'fd', 'pty']), encoding='utf-8', arrivals=arrivals, ops=ops)
+
+
 CORPUS = [
     # data before the first await, between awaits, several chunks in one turn, EOF with the last data
     dict(kind='fd', arrivals=[[0.0, 'w', 'hello '], [0.0, 'w', 'world'], [0.3, 'w', ' again'], [0.0, 'c']],
@@ -428,6 +448,8 @@ def run(ctx):
         cases.append(rand_case(ctx.rng))
     for _ in range(30 if ctx.quick() else 300):
         cases.append(rand_case(ctx.rng, allow_t0=True))
+    for _ in range(40 if ctx.quick() else 400):
+        cases.append(unicode_case(ctx.rng))
     cases += [copy.deepcopy(c) for _, c in KNOWN_CASES]
     runs = []
     hist = collections.Counter()
@@ -466,6 +488,8 @@ def run(ctx):
         for c, (a, b), ml in zip(cases, runs, mouts):
             if any(op['mode'] == 'a' and op['T'] == 0 for op in c['ops']):
                 continue          # outside the modelled domain (known finding a)
+            if c.get('encoding'):
+                continue          # unicode mode: judged against the blocking twin (the codec is outside this model; C07)
             if any(ev[0] == 'd' and ev[2] for ev in a['log']):
                 continue          # data delivered in the done-window: not part of a call's event list
             dm = compare_model(c, a, ml)
